@@ -34,6 +34,7 @@ type relParams struct {
 	behs    []hbeh // behaviour of request i on connection 1
 	conns   int
 	recvBuf uint
+	lateReg bool // a further handler is registered on the serving server before the second client's requests arrive
 }
 
 func (p relParams) name() string {
@@ -41,7 +42,11 @@ func (p relParams) name() string {
 	for _, b := range p.behs {
 		s = append(s, hbehNames[b])
 	}
-	return fmt.Sprintf("release/%s/conns=%d/recvbuf=%d", strings.Join(s, ","), p.conns, p.recvBuf)
+	n := fmt.Sprintf("release/%s/conns=%d/recvbuf=%d", strings.Join(s, ","), p.conns, p.recvBuf)
+	if p.lateReg {
+		n += "/late-registration"
+	}
+	return n
 }
 
 func relScenario(p relParams) func() {
@@ -116,16 +121,27 @@ func relScenario(p relParams) func() {
 				w.Invoke(c)
 			}
 		})
-		if p.conns == 2 {
+		startClient2 := func() {
 			mc.GoNamed("client2", func() {
 				for _, c := range conn2 {
 					w.Invoke(c)
 				}
 			})
 		}
+		if p.conns == 2 && !p.lateReg {
+			startClient2()
+		}
 		order := ""
-		for {
+		for first := true; ; first = false {
 			mc.Quiesce()
+			if first && p.conns == 2 && p.lateReg {
+				// the first client's handlers are where they stay until a gate opens; the server gets one more
+				// handler registered, then the second client's requests arrive
+				mc.GoNamed("registrar", func() { w.RegisterLate(1, "late.Service.Method") })
+				mc.Quiesce()
+				startClient2()
+				mc.Quiesce()
+			}
 			if len(gates) == 0 {
 				break
 			}
@@ -303,6 +319,11 @@ func relInstances(tier string) []Instance {
 				}
 			}
 		}
+	}
+	// a handler registered while the first client's handlers are parked, then the second client's requests
+	for _, behs := range [][]hbeh{{hNever, hRet, hRet}, {hGate, hRet, hRet}, {hRelGate, hNever, hRet}, {hRet, hHelperRel, hNever}, {hRelGate, hRelGate, hGate}} {
+		p := relParams{behs: behs, conns: 2, lateReg: true}
+		out = append(out, Instance{Name: p.name(), Bound: 1, Root: relScenario(p)})
 	}
 	// many released handlers still running (boundary: worker pools sized by the number of CPUs)
 	for _, k := range []int{runtime.NumCPU(), runtime.NumCPU() + 1, 2*runtime.NumCPU() + 1} {
